@@ -737,3 +737,111 @@ var _ = binary.LittleEndian
 func FuzzVF_C13_Parser(f *testing.F) {
 	kit.DriveFuzz(f, "C13", "FuzzVF_C13_Parser", "native coverage-guided fuzzing (go test -fuzz) of the byte stream behind the generator of TestVF_C13_Parser, same oracle", vfGenParse, vfRunParse)
 }
+
+// ---------------------------------------------------------------------------------------------
+// C14, many reconnects: the camera daemon restarts (and reconnects) many times during the life of one
+// recorder process; every connection must be served like the first one.
+
+type vfReconnCase struct {
+	FPS    int   `json:"fps"`
+	Frames []int `json:"frames_per_connection"`
+}
+
+func vfGenReconn(t *rapid.T) vfReconnCase {
+	c := vfReconnCase{FPS: rapid.SampledFrom([]int{1, 2, 4, 8, 9, 16, 30, 60}).Draw(t, "fps")}
+	n := rapid.SampledFrom([]int{2, 5, 12, 25, 40, 70}).Draw(t, "connections")
+	for i := 0; i < n; i++ {
+		c.Frames = append(c.Frames, rapid.IntRange(0, 3).Draw(t, "frames"))
+	}
+	return c
+}
+
+func vfRunReconn(c vfReconnCase) *kit.Result {
+	r := &kit.Result{}
+	if c.FPS < 1 || c.FPS > 60 || len(c.Frames) < 1 || len(c.Frames) > 200 {
+		r.Failf("malformed case")
+		return r
+	}
+	dir, err := os.MkdirTemp(os.Getenv("VERIF_SCRATCH"), "reconn-")
+	if err != nil {
+		panic(err)
+	}
+	defer os.RemoveAll(dir)
+	out := filepath.Join(dir, "out")
+	os.Mkdir(out, 0755)
+	sc := vfSockCase{Cam: vfCamDesc{Brand: "flir", Model: "lepton3", Firmware: "1.2.3", W: 8, H: 6, FPS: c.FPS, Serial: 5}, Min: 1, Max: 2, Trigger: 1, Edge: 1}
+	conf := vfConf{DeviceName: "reconn", Min: 1, Max: 2, MinDiskMB: 1, BucketS: 600, RefillS: 600, WinStart: "12:00", WinEnd: "12:00", Motion: vfSimpleMotion(1, 1)}
+	if err := vfWriteConfig(dir, out, conf); err != nil {
+		panic(err)
+	}
+	vfResetGlobals()
+	vfQuietLogs()
+	parsed, err := ParseConfig(dir)
+	if err != nil {
+		r.Failf("ParseConfig: %v", err)
+		return r
+	}
+	id := 0
+	for k, n := range c.Frames {
+		if n < 0 || n > 50 {
+			r.Failf("malformed case")
+			return r
+		}
+		// successive cameras differ: another model, resolution and frame size every other connection
+		if k%2 == 1 {
+			sc.Cam.Model, sc.Cam.W, sc.Cam.H = "boson", 10, 8
+		} else {
+			sc.Cam.Model, sc.Cam.W, sc.Cam.H = "lepton3", 8, 6
+		}
+		conn := vfStartConnWith(parsed)
+		fail := func(format string, a ...interface{}) *kit.Result {
+			r.Failf("camera connection %d of %d (%s %dx%d, fps %d): %s", k+1, len(c.Frames), sc.Cam.Model, sc.Cam.W, sc.Cam.H, c.FPS, fmt.Sprintf(format, a...))
+			return r
+		}
+		if err := conn.Write(vfHeaderBytes(sc.Cam)); err != nil {
+			return fail("header not accepted: %v; handleConn: %v", err, conn.Close())
+		}
+		for i := 0; i < n; i++ {
+			raw, _ := vfSockFrame(sc, id%1500, false, false)
+			id++
+			if err := conn.SendFrame(raw, nil); err != nil {
+				return fail("frame %d not accepted: %v; handleConn: %v", i, err, conn.Close())
+			}
+		}
+		cerr := conn.Close()
+		if cerr == nil || !strings.Contains(cerr.Error(), "EOF") || strings.Contains(cerr.Error(), "unexpected") {
+			return fail("handleConn ended with %v, want a clean EOF", cerr)
+		}
+		mu.Lock()
+		got := 0
+		if processor != nil {
+			got = int(processor.CurrentFrame)
+		}
+		mu.Unlock()
+		if got != n {
+			return fail("%d frames were sent, %d were delivered to the processor", n, got)
+		}
+		if n > 0 {
+			// and the last one is what the processor holds, pixel for pixel
+			_, pix := vfSockFrame(sc, (id-1)%1500, false, false)
+			mu.Lock()
+			_, f := processor.GetRecentFrame()
+			mu.Unlock()
+			if f == nil || fmt.Sprint(vfFlatten(f)) != fmt.Sprint(pix) {
+				return fail("the last frame delivered to the processor is not the last frame sent (frame alignment lost?)")
+			}
+		}
+	}
+	r.Class(fmt.Sprintf("fps=%d", c.FPS))
+	if len(c.Frames) >= 25 {
+		r.Class("connections>=25")
+	}
+	r.NT = len(c.Frames) >= 25
+	return r
+}
+
+func TestVF_C14_Reconnects(t *testing.T) {
+	kit.Drive(t, "C14", "TestVF_C14_Reconnects",
+		"generated: 2-70 successive camera connections to one recorder process (as after camera daemon restarts), each with a header and 0-3 frames, fps from {1,2,4,8,9,16,30,60}, alternating between two cameras of different model, resolution and frame size. Oracle: every connection is served like the first: the header is accepted, every frame is delivered to the processor exactly once, handleConn ends with a clean EOF, nothing panics. Non-trivial: at least 25 connections.",
+		vfGenReconn, vfRunReconn)
+}
